@@ -133,4 +133,38 @@ theorem lookup_dropLast (k : κ) (es : List (κ × ν)) (h : (keys es).Nodup) :
       · simp only [he, if_false]
         exact ih'
 
+/-! ### `get` / `add` case by case -/
+
+theorem get_hit {c : Cache κ ν} {k : κ} {v : ν} (h : lookup k c.entries = some v) :
+    LRU.get c k = (some v, { c with entries := (k, v) :: removeKey k c.entries }) := by
+  unfold LRU.get; simp [h]
+
+theorem get_miss {c : Cache κ ν} {k : κ} (h : lookup k c.entries = none) : LRU.get c k = (none, c) := by
+  unfold LRU.get; simp [h]
+
+theorem add_existing {c : Cache κ ν} {k : κ} {w : ν} (v : ν) (h : lookup k c.entries = some w) :
+    add c k v = { c with entries := (k, v) :: removeKey k c.entries } := by
+  unfold add; simp [h]
+
+theorem add_new_full {c : Cache κ ν} {k : κ} (v : ν) (h : lookup k c.entries = none)
+    (hf : c.maxSize > 0 ∧ c.entries.length + 1 > c.maxSize) :
+    add c k v = { c with entries := ((k, v) :: c.entries).dropLast } := by
+  unfold add; simp [h, hf]
+
+theorem add_new_room {c : Cache κ ν} {k : κ} (v : ν) (h : lookup k c.entries = none)
+    (hf : ¬ (c.maxSize > 0 ∧ c.entries.length + 1 > c.maxSize)) :
+    add c k v = { c with entries := (k, v) :: c.entries } := by
+  unfold add; simp only [h, List.length_cons]; simp [hf]
+
+theorem evicted_existing {c : Cache κ ν} {k : κ} {w : ν} (h : lookup k c.entries = some w) : evicted c k = none := by
+  unfold evicted; simp [h]
+
+theorem evicted_new_full {c : Cache κ ν} {k : κ} (h : lookup k c.entries = none)
+    (hf : c.maxSize > 0 ∧ c.entries.length + 1 > c.maxSize) : evicted c k = (k :: keys c.entries).getLast? := by
+  unfold evicted; simp [h, hf]
+
+theorem evicted_new_room {c : Cache κ ν} {k : κ} (h : lookup k c.entries = none)
+    (hf : ¬ (c.maxSize > 0 ∧ c.entries.length + 1 > c.maxSize)) : evicted c k = none := by
+  unfold evicted; simp only [h]; simp [hf]
+
 end RegexVerif.Lemmas.LRU
